@@ -3,6 +3,13 @@
 // what the real calls returned (binding B with inputs from A; validated by
 // spec/PoolOpsTrace.tla). Model operation "A.2" = the real expel fact standing for "A",
 // really signed (NodeSign) by node 2: same fact, other signer => other operation hash.
+//
+// Step kinds: "Set", "Call" (one caller, the call runs to its end), and for overlapping
+// calls "Begin" c / "End" c (forced.go): caller c's OperationHashes runs in its own
+// goroutine and is parked inside the filter callback the harness hands to the pool -
+// no hook in the repository is needed - until the schedule says End. A behaviour with
+// mode "free" runs the same steps without any forcing (one goroutine per caller, one
+// for the stores).
 package c22
 
 import (
@@ -32,11 +39,14 @@ type stepT struct {
 	Op  string   `json:"op,omitempty"`
 	L   uint64   `json:"l,omitempty"`
 	Rej []string `json:"rej,omitempty"`
+	C   int      `json:"c,omitempty"`
 }
 
 type behT struct {
 	I     int     `json:"i"`
 	Steps []stepT `json:"steps"`
+	Park  string  `json:"park,omitempty"` // forced calls park at their "first" (default) or "last" callback
+	Mode  string  `json:"mode,omitempty"` // "" = the controller performs the steps in order; "free" = unforced race
 }
 
 type mop struct {
@@ -139,7 +149,11 @@ func (w *world) runBeh(b *behT) []event {
 	if err != nil {
 		panic(err)
 	}
-	defer func() { _ = db.Close(); _ = raw.Close() }()
+	fc := &forcer{w: w, db: db, calls: map[int]*inflight{}}
+	defer func() { fc.abandon(); _ = db.Close(); _ = raw.Close() }()
+	if b.Mode == "free" {
+		return append(evs, w.runFree(db, b)...)
+	}
 	ctx := context.Background()
 	for _, s := range b.Steps {
 		switch s.A {
@@ -158,64 +172,117 @@ func (w *world) runBeh(b *behT) []event {
 			}
 			waitTick()
 		case "Call":
-			rej := map[string]bool{}
-			for _, id := range s.Rej {
-				rej[w.op(id).Hash().String()] = true
-			}
-			// the ordered index as the pool's own traversal shows it (not judged; for diagnosis)
-			index := []mop{}
-			_ = db.TraverseOperationsBytes(ctx, nil, func(_ string, meta isaacdatabase.FrameHeaderPoolOperation, _, _ []byte) (bool, error) {
-				m, _ := w.model(meta.Operation())
-				index = append(index, m)
-				return true, nil
-			})
-			rejected := []mop{}
-			examined := 0
-			metaBad := false
-			filter := func(meta isaac.PoolOperationRecordMeta) (bool, error) {
-				examined++
-				m, ok := w.model(meta.Operation())
-				if ok {
-					// the record header must name the operation's own fact
-					if w.facts[meta.Fact().String()] != m.F {
-						metaBad = true
-					}
-				}
-				if rej[meta.Operation().String()] {
-					rejected = append(rejected, m)
-					return false, nil
-				}
-				return true, nil
-			}
-			var got [][2]util.Hash
-			var err error
-			pn := h.Catch(func() { got, err = db.OperationHashes(ctx, base.Height(33), s.L, filter) })
-			ret := []mop{}
-			unstored := []mop{}
-			for i := range got {
-				m, _ := w.model(got[i][0])
-				if got[i][1] == nil || w.facts[got[i][1].String()] != m.F {
-					m = mop{F: "?fact-of-" + m.F, S: m.S} // entry pairs the operation with another fact
-				}
-				ret = append(ret, m)
-				// every entry is stored in the pool: the operation can be read back
-				op, found, oerr := db.Operation(ctx, got[i][0])
-				if oerr != nil || !found || op == nil || !op.Hash().Equal(got[i][0]) {
-					unstored = append(unstored, m)
-				}
-			}
-			ev := event{"a": "Call", "l": s.L, "rej": mops(s.Rej), "rejected": rejected, "examined": examined,
-				"ret": ret, "unstored": unstored, "index": index, "panic": pn != "", "err": err != nil, "metabad": metaBad}
-			if pn != "" || err != nil {
-				ev["msg"] = firstLine(pn, err)
-			}
+			index := w.index(db)
+			ev := w.call(db, s.L, s.Rej, nil)
+			ev["a"] = "Call"
+			ev["index"] = index
 			evs = append(evs, ev)
-			if pn != "" || err != nil {
+			if ev["panic"].(bool) || ev["err"].(bool) {
 				return evs // a panic violates everything; the behaviour ends here
+			}
+		case "Begin":
+			if _, busy := fc.calls[s.C]; busy {
+				panic(fmt.Sprintf("behaviour %d: caller %d begins a call while it is in one", b.I, s.C))
+			}
+			stop := false
+			evs, stop = fc.begin(evs, s, b.Park)
+			if stop {
+				return evs
+			}
+		case "End":
+			stop := false
+			evs, stop = fc.end(evs, s.C)
+			if stop {
+				return evs
 			}
 		}
 	}
+	// a walk cut by the depth bound may leave calls in flight: let them return, in caller order
+	for len(fc.calls) > 0 {
+		stop := false
+		evs, stop = fc.end(evs, fc.lowest())
+		if stop {
+			return evs
+		}
+	}
 	return evs
+}
+
+// index: the ordered index as the pool's own traversal shows it (not judged; for diagnosis
+// and for the "last" park position)
+func (w *world) index(db *isaacdatabase.TempPool) []mop {
+	index := []mop{}
+	_ = db.TraverseOperationsBytes(context.Background(), nil, func(_ string, meta isaacdatabase.FrameHeaderPoolOperation, _, _ []byte) (bool, error) {
+		m, _ := w.model(meta.Operation())
+		index = append(index, m)
+		return true, nil
+	})
+	return index
+}
+
+// call performs one OperationHashes(limit l, filter rejecting rej) and describes what it
+// returned. at, if not nil, is called inside every filter callback (before the verdict of
+// the filter) with the number of the callback and the record's operation: the place where
+// a forced schedule parks the caller.
+func (w *world) call(db *isaacdatabase.TempPool, l uint64, rejids []string, at func(n int, m mop)) event {
+	ctx := context.Background()
+	rej := map[string]bool{}
+	for _, id := range rejids {
+		rej[w.op(id).Hash().String()] = true
+	}
+	rejected := []mop{}
+	examined := 0
+	metaBad := false
+	filter := func(meta isaac.PoolOperationRecordMeta) (bool, error) {
+		examined++
+		m, ok := w.model(meta.Operation())
+		if ok {
+			// the record header must name the operation's own fact
+			w.mu.Lock()
+			f := w.facts[meta.Fact().String()]
+			w.mu.Unlock()
+			if f != m.F {
+				metaBad = true
+			}
+		}
+		if at != nil {
+			at(examined, m)
+		}
+		if rej[meta.Operation().String()] {
+			rejected = append(rejected, m)
+			return false, nil
+		}
+		return true, nil
+	}
+	var got [][2]util.Hash
+	var err error
+	pn := h.Catch(func() { got, err = db.OperationHashes(ctx, base.Height(33), l, filter) })
+	ret := []mop{}
+	unstored := []mop{}
+	for i := range got {
+		m, _ := w.model(got[i][0])
+		w.mu.Lock()
+		f := ""
+		if got[i][1] != nil {
+			f = w.facts[got[i][1].String()]
+		}
+		w.mu.Unlock()
+		if got[i][1] == nil || f != m.F {
+			m = mop{F: "?fact-of-" + m.F, S: m.S} // entry pairs the operation with another fact
+		}
+		ret = append(ret, m)
+		// every entry is stored in the pool: the operation can be read back
+		op, found, oerr := db.Operation(ctx, got[i][0])
+		if oerr != nil || !found || op == nil || !op.Hash().Equal(got[i][0]) {
+			unstored = append(unstored, m)
+		}
+	}
+	ev := event{"l": l, "rej": mops(rejids), "rejected": rejected, "examined": examined,
+		"ret": ret, "unstored": unstored, "panic": pn != "", "err": err != nil, "metabad": metaBad}
+	if pn != "" || err != nil {
+		ev["msg"] = firstLine(pn, err)
+	}
+	return ev
 }
 
 func firstLine(pn string, err error) string {
